@@ -479,5 +479,57 @@ class EnvironmentForNode(Target):
                 ('search-paths-come-from-launch-environment', all(res.get(q) == st.osenv[q] for q in shell if q not in st.env))]
 
 
-TARGETS = [GetPlatformEnvironment(), GetEnvironment(), DefaultEnvironment(), EnvironmentWithName(), EnvironmentForNode()]
+class FromDictLowercasesNames(Target):
+    """environment NAMES are matched case-insensitively because FlowIR.from_dict stores every environment under its
+    lower-cased name (and get_platform_environment lower-cases the name it looks up): after loading, each platform's
+    environments are keyed by the lower-cased names with their contents unchanged, and the caller's document is not
+    modified."""
+    prop = 'C17'
+    name = 'FlowIR.from_dict[environment names]'
+    file = 'python/experiment/model/frontends/flowir.py'
+    qualname = 'FlowIR.from_dict'
+    compare_return = False
+    trusted = ["FlowIR.discover_platforms", "deep_copy"]
+    assumptions = ["two platforms with environments named from ['MyEnv', 'myenv2', 'ALLCAPS', 'environment'] (every subset), "
+                   "contents symbolic maps; a platform whose environments entry is None"]
+
+    NAMES = ['MyEnv', 'myenv2', 'ALLCAPS', 'environment']
+
+    def setup(self, c):
+        envs = {}
+        contents = {}
+        for plat in ('default', 'plat'):
+            if plat == 'plat' and c.one_of('plat.environments_is_none', [False, True]):
+                envs[plat] = None
+                continue
+            d = {}
+            for nm in self.NAMES:
+                if c.one_of('%s.%s' % (plat, nm), [False, True]):
+                    d[nm] = {'VAR': 'value-of-%s-%s' % (plat, nm)}
+                    contents[(plat, nm.lower())] = d[nm]['VAR']
+            envs[plat] = d
+        doc = {FlowIR.FieldEnvironments: envs, 'components': []}
+        import copy
+        cls = Obj('FlowIR-class', FieldEnvironments=FlowIR.FieldEnvironments, FieldPlatforms=FlowIR.FieldPlatforms,
+                  discover_platforms=Extern('discover_platforms', lambda c, f: ['default', 'plat']))
+        cls.__call__ = Extern('FlowIR()', lambda c: Obj('flowir-instance', flowir={}))
+        return State(args=[cls, doc], doc=doc, before=copy.deepcopy(doc), contents=contents)
+
+    def real_function(self):
+        return FlowIR.from_dict.__func__
+
+    def ensures(self, c, st, out):
+        if out.kind == 'raise':
+            return [('no-exception', False)]
+        got = out.value.flowir.get(FlowIR.FieldEnvironments, {})
+        seen = {}
+        for plat, d in got.items():
+            for nm, env in (d or {}).items():
+                seen[(plat, nm)] = env.get('VAR')
+        return [('environments-are-stored-under-lower-cased-names-with-their-contents', seen == st.contents),
+                ('the-callers-document-is-not-modified', st.doc == st.before)]
+
+
+TARGETS = [GetPlatformEnvironment(), GetEnvironment(), DefaultEnvironment(), EnvironmentWithName(), EnvironmentForNode(),
+           FromDictLowercasesNames()]
 LEMMAS = []
